@@ -90,6 +90,11 @@ CFG = {"post": [session_burst], "quick": 300, "thorough": 8000, "persist": ["non
 # this property's own oracle on the real code's observations
 # ------------------------------------------------------------------------------------------
 
+def gw_file_as_update(op):
+    from . import gw
+    return gw.file_as_update(op)
+
+
 NODE_RE = re.compile(r"N(-?\d+)\{([^{}]*)\}")
 
 
@@ -145,6 +150,8 @@ def c10_oracle(hist, obs, version):
             if op[0] == "L" and (gw_spec.accepted(op[1], version) or (0, 0, 0))[2] == 4:
                 flag("stream-request-raised", f"stream request raised {ob.exc}", at, exc=ob.exc)
             return fails
+        if op[0] == "F":
+            op = gw_file_as_update(op) or ("T", 0)
         if op[0] == "U":
             _, nids, fwt, fwv, image = op
             ok = True
